@@ -123,7 +123,12 @@ def run_case(case, ctx):
     crash = case["crash"]
     kind = crash["kind"]
     rnd = random.Random(case.get("pseed", 0))
-    db = RecordingDB()
+    dictsub = case.get("db") == "dictsub" and kind in ("none", "caller", "reroot_old", "reroot_missing", "badarg")
+    # a dict SUBCLASS that overrides the item protocol (hexary_history.PrefixDict): no event
+    # recording there, but everything that is judged on states is judged
+    db = hh.PrefixDict() if dictsub else RecordingDB()
+    if dictsub:
+        ctx.count("cases_over_a_dict_subclass")
     t = HexaryTrie(db, prune=prune)
     model = {}
     twin_db = {}
@@ -248,7 +253,7 @@ def run_case(case, ctx):
     if db.pending_trace_violation is not None:
         tv = db.pending_trace_violation
         raise Violation(tv.monitor, tv.detail)
-    commit_writes = db.writes
+    commit_writes = db.writes if not dictsub else 0
 
     aborted = isinstance(res, Raised)
     if aborted:
@@ -439,6 +444,7 @@ def gen_base(rnd, tier):
         post.append(o)
     return {"engine": "c05", "prune": prune, "pseed": rnd.randrange(1 << 30), "pre": pre,
             "batch": batch, "post": post, "universe": universe.kind, "big": big,
+            "db": "dictsub" if rnd.random() < 0.15 else "recording",
             "in_handler": rnd.random() < 0.25}
 
 
